@@ -19,15 +19,18 @@ namespace
     worlds::Opt o;
     o.spherical = kind == 2;
     o.cross_section = kind != 3;
+    if (kind == 5) o.slab_model = 1;
     o.force_surface = kind == 1 || kind == 4;
     o.partial = kind == 4;
+    o.water = kind == 5;
     return o;
   }
-  const unsigned NKINDS = 5;
+  const unsigned NKINDS = 6;
   const char *KINDN[] = {"cartesian+cross-section", "cartesian+cross-section+forced-surface-T", "spherical+cross-section", "cartesian, no cross section",
-                         "cartesian+cross-section+forced-surface-T, features only partly replacing the incoming values (add operations, slab/fault models limited to part of the thickness)"
+                         "cartesian+cross-section+forced-surface-T, features only partly replacing the incoming values (add operations, slab/fault models limited to part of the thickness)",
+                         "cartesian+cross-section, oceanic plate and slab (mass conserving) carrying 'tian water content' compositions, which ask the world for the temperature at the point"
                         };
-  const unsigned KINDS_2D[] = {0, 1, 2, 4};   // the worlds with a cross section
+  const unsigned KINDS_2D[] = {0, 1, 2, 4, 5};   // the worlds with a cross section
 
   // probes beyond the shared lattice: just above / at / just below the reference surface (negative depths are what an application with
   // topography or a deformed mesh asks for), and dense lines through the fault and the slab, where part of the thickness keeps incoming values
@@ -456,7 +459,7 @@ int main(int argc, char **argv)
   Spec spec;
   spec.property = "C01";
   spec.level = "model_checking";
-  spec.rule = "batching suites: every request list of length <= L over an 8-atom alphabet x 5 rich worlds x all probe points (lattice, depths just above/at/below the surface, lines through the fault and the slab), each block compared bit-for-bit with the stand-alone "
+  spec.rule = "batching suites: every request list of length <= L over an 8-atom alphabet x 6 rich worlds x all probe points (lattice, depths just above/at/below the surface, lines through the fault and the slab), each block compared bit-for-bit with the stand-alone "
               "query through the same interface (non-trivial: list length >= 2 and at least one point inside a feature); history suites: every operation sequence of length <= D over 15 "
               "operations (queries at 4 pairs of adjacent doubles straddling feature boundaries, 2-D batched query, grains entry point, construct/query/destroy a second, spherical world, temperature profiles through two slabs whose thermal models use splines of different sizes) "
               "each replayed in a freshly exec'd process, canonical state = bit pattern of 12 probe answers + serialised RNG engine + W2 alive (non-trivial: every enabled sequence; distinct by construction)";
@@ -478,12 +481,12 @@ int main(int argc, char **argv)
     const unsigned L = th ? 4 : 3, D = th ? 4 : 3;
     std::vector<Suite> s;
     Suite a; a.name = "batch3d"; a.n = NKINDS*n_lists(L); a.run = [L](uint64_t i, Ctx &c) { run_batch(false, L, i, c); };
-    a.bound = "all request lists of length 1.." + std::to_string(L) + " over 8 atoms x 5 worlds x 410 points (lattice + points above/at/below the surface + lines through fault and slab), 3-D interface";
+    a.bound = "all request lists of length 1.." + std::to_string(L) + " over 8 atoms x 6 worlds x 410 points (lattice + points above/at/below the surface + lines through fault and slab), 3-D interface";
     s.push_back(a);
-    Suite b; b.name = "batch2d"; b.n = 4*n_lists(L); b.run = [L](uint64_t i, Ctx &c) { run_batch(true, L, i, c); };
-    b.bound = "all request lists of length 1.." + std::to_string(L) + " over 8 atoms x 4 worlds with cross section x 99 points, 2-D interface";
+    Suite b; b.name = "batch2d"; b.n = 5*n_lists(L); b.run = [L](uint64_t i, Ctx &c) { run_batch(true, L, i, c); };
+    b.bound = "all request lists of length 1.." + std::to_string(L) + " over 8 atoms x 5 worlds with cross section x 99 points, 2-D interface";
     s.push_back(b);
-    Suite e; e.name = "entrypoints"; e.n = 4; e.run = run_entry; e.bound = "temperature/composition/grains entry points (2-D and 3-D) vs properties() on 4 worlds x all points";
+    Suite e; e.name = "entrypoints"; e.n = 5; e.run = run_entry; e.bound = "temperature/composition/grains entry points (2-D and 3-D) vs properties() on 5 worlds x all points";
     s.push_back(e);
     { Suite r; r.name = "href"; r.n = 0; r.run = run_href; r.bound = "(helper: history-free answers computed in pristine processes; no cases of its own)"; s.push_back(r); }
     for (unsigned len = 1; len <= D; ++len)
